@@ -902,8 +902,12 @@ def e2e_exec(ctx, work, mode, system, kwargs, seed):
     np.random.seed(seed)
     random.seed(seed)
     error = None
+    timed_out = False
     try:
-        polyply.gen_coords(toppath=Path(path), outpath=Path(out), name="t", box=box, **kwargs)
+        with common.time_limit(120):
+            polyply.gen_coords(toppath=Path(path), outpath=Path(out), name="t", box=box, **kwargs)
+    except common.CaseTimeout:
+        timed_out = True
     except Exception as err:  # pylint: disable=broad-except
         error = "%s: %s" % (type(err).__name__, err)
     finally:
@@ -914,6 +918,9 @@ def e2e_exec(ctx, work, mode, system, kwargs, seed):
     replay = dict(stream="e2e-" + mode, system=system, seed=seed,
                   kwargs={k: ([list(p) for p in v] if k == "ligands" else v) for k, v in kwargs.items()})
     shape = "gen_coords-%s-fails" % mode
+    if timed_out:
+        ctx.tally(e2e_timeout=True)          # counted, not judged
+        return
     if error is not None:
         ctx.oracle_fail(shape, "gen_coords %s on a valid tiny system raised %s" % (kwargs, error), replay)
         ctx.case(json.dumps(replay, sort_keys=True, default=str), stream="e2e-" + mode, ok=False)
